@@ -1308,13 +1308,24 @@ static string descDump(const Util::AutDescription& d)
 
 // load -> dump -> load -> dump in one encoding: 'E' load throws, '1' both dumps agree on rules and final states
 // (relaxed equality of the descriptions, under the same state names), '0' they differ, 'e' the reload throws
+// arbitrary texts must not register their symbols (ranks up to INT_MAX) in the process-wide default alphabet of the explicit
+// tree automata: later cases that complement an automaton over that alphabet would allocate per rank
+template <class Aut> static Aut freshAut() { return Aut(); }
+template <> TA freshAut<TA>()
+{
+	TA::AlphabetType alph(new TA::OnTheFlyAlphabet);
+	TA a;
+	a.SetAlphabet(alph);
+	return a;
+}
+
 template <class Aut>
 static char roundTrip(const string& text)
 {
 	Parsing::TimbukParser parser;
 	CaptureSerializer cs1, cs2;
 	try {
-		Aut a;
+		Aut a = freshAut<Aut>();
 		AutBase::StateDict d1;
 		a.LoadFromString(parser, text, d1);
 		a.DumpToString(cs1, d1);
@@ -1323,7 +1334,7 @@ static char roundTrip(const string& text)
 		Serialization::TimbukSerializer ser;
 		string text2 = ser.Serialize(cs1.last);
 		try {
-			Aut b;
+			Aut b = freshAut<Aut>();
 			AutBase::StateDict d2;
 			b.LoadFromString(parser, text2, d2);
 			b.DumpToString(cs2, d2);
